@@ -8,18 +8,19 @@ import (
 )
 
 // Value is one of:
-//   *Term                 scalar bool / integer / float
-//   Str                   string (immutable)
-//   *Value                pointer to a cell (nil = nil pointer)
-//   Struct, Array         aggregates with value semantics
-//   Slice                 slice header over []Value cells
-//   *Map                  map (nil = nil map)
-//   Iface                 interface value
-//   *ssa.Function, *ssa.Builtin, *Closure   function values
-//   Tuple                 multiple results
-//   *Iter                 range iterator
-//   SymRef                pointer to slice/array element with symbolic index
-//   *Opaque               engine-native object (error values, big ints, handles)
+//
+//	*Term                 scalar bool / integer / float
+//	Str                   string (immutable)
+//	*Value                pointer to a cell (nil = nil pointer)
+//	Struct, Array         aggregates with value semantics
+//	Slice                 slice header over []Value cells
+//	*Map                  map (nil = nil map)
+//	Iface                 interface value
+//	*ssa.Function, *ssa.Builtin, *Closure   function values
+//	Tuple                 multiple results
+//	*Iter                 range iterator
+//	SymRef                pointer to slice/array element with symbolic index
+//	*Opaque               engine-native object (error values, big ints, handles)
 type Value interface{}
 
 type Str struct {
